@@ -826,8 +826,10 @@ impl Parser {
                             Some(Lexem::Comma) => {}
                             Some(Lexem::RawString(_)) => {
                                 self.drop_lexem();
-                                let group_field = self.parse_expr().unwrap().unwrap();
-                                group_by_fields.push(group_field);
+                                match self.parse_expr()? {
+                                    Some(group_field) => group_by_fields.push(group_field),
+                                    None => return Err(String::from("Error parsing GROUP BY expression")),
+                                }
                             }
                             _ => {
                                 self.drop_lexem();
@@ -859,18 +861,41 @@ impl Parser {
                         Some(Lexem::Comma) => {}
                         Some(Lexem::RawString(ref ordering_field)) => {
                             let actual_field = match ordering_field.parse::<usize>() {
-                                Ok(idx) => fields[idx - 1].clone(),
+                                Ok(idx) if idx >= 1 && idx <= fields.len() => fields[idx - 1].clone(),
+                                Ok(_) => {
+                                    return Err(String::from("ORDER BY position is out of range: ")
+                                        + ordering_field);
+                                }
+                                _ if !ordering_field.is_empty()
+                                    && ordering_field.chars().all(|c| c.is_ascii_digit()) =>
+                                {
+                                    return Err(String::from("ORDER BY position is out of range: ")
+                                        + ordering_field);
+                                }
                                 _ => {
                                     self.drop_lexem();
-                                    self.parse_expr().unwrap().unwrap()
+                                    match self.parse_expr()? {
+                                        Some(expr) => expr,
+                                        None => {
+                                            return Err(String::from(
+                                                "Error parsing ORDER BY expression",
+                                            ))
+                                        }
+                                    }
                                 }
                             };
                             order_by_fields.push(actual_field);
                             order_by_directions.push(true);
                         }
                         Some(Lexem::DescendingOrder) => {
-                            let cnt = order_by_directions.len();
-                            order_by_directions[cnt - 1] = false;
+                            match order_by_directions.last_mut() {
+                                Some(direction) => *direction = false,
+                                None => {
+                                    return Err(String::from(
+                                        "Error parsing ORDER BY, DESC is not preceded by a column",
+                                    ))
+                                }
+                            }
                         }
                         _ => {
                             self.drop_lexem();
